@@ -240,6 +240,8 @@ func typeSig(t map[string]interface{}) string {
 		return "map[" + sstr(t["key"]) + "]" + typeSig(rec(t["e"]))
 	case "rec":
 		return fmt.Sprintf("rec%d", intOf(t["d"]))
+	case "ifp":
+		return "iface(*" + typeSig(rec(t["e"])) + ")"
 	case "st":
 		var p []string
 		for _, f := range seqOf(t["f"]) {
@@ -289,6 +291,9 @@ func goType(t map[string]interface{}) reflect.Type {
 	switch k {
 	case "ptr":
 		rt = reflect.PtrTo(goType(rec(t["e"])))
+	case "ifp":
+		goType(rec(t["e"])) // the pointee type is built (and counted) too
+		rt = leafTypes["iface"]
 	case "slice":
 		rt = reflect.SliceOf(goType(rec(t["e"])))
 	case "arr":
@@ -424,7 +429,7 @@ func build(t, v map[string]interface{}) reflect.Value {
 	}
 	out := reflect.New(rt).Elem()
 	switch k {
-	case "iface":
+	case "iface", "ifp":
 		if g == "i" {
 			out.Set(build(rec(v["t"]), rec(v["v"])))
 			break
@@ -615,6 +620,8 @@ func preV(t map[string]interface{}) map[string]interface{} {
 		return map[string]interface{}{"g": "ut", "c": "old"}
 	case k == "ptr":
 		return map[string]interface{}{"g": "p", "e": preV(rec(t["e"]))}
+	case k == "ifp":
+		return map[string]interface{}{"g": "i", "t": map[string]interface{}{"k": "ptr", "e": t["e"]}, "v": map[string]interface{}{"g": "p", "e": preV(rec(t["e"]))}}
 	case k == "slice":
 		e := preV(rec(t["e"]))
 		return map[string]interface{}{"g": "a", "e": []interface{}{e, preV(rec(t["e"])), preV(rec(t["e"]))}}
